@@ -9,7 +9,9 @@
 
   Trusted / assumed here: `sort.SliceStable` is a stable sort (modelled as insertion sort); byte-level
   framing (a frame written under a format is read back unchanged under the same format) is C07's theorem
-  and appears here as the definition of delivery in `Gate.deliverTo…`/`Gate.playStep`; channels are
+  and appears here as the definition of delivery in `Gate.deliverTo…`/`Gate.playStep` — for frames of EVERY
+  length (a length prefix of 1–5 VarInt bytes is C05/C07's concern; the correspondence check sends play packets of
+  32767…70000 bytes in both directions, plain, below-threshold and deflated, so that a mis-encoded long prefix shows); channels are
   reliable FIFO byte streams (`net.Pipe`/TCP).
 -/
 import GoMC.Gen.Gate
